@@ -27,7 +27,7 @@ ASSUMPTIONS = [
 OPERATORS = ["same_key", "reversed_pair", "ws_pair", "ws_reversed_pair", "ws_fs_density", "ws_formula_signature",
              "formula_other_params", "table_section_twice", "table_section_ws", "table_named_like_formula",
              "table_named_like_builtin", "same_key_embed_density", "adp_same_key", "adp_reversed_pair", "adp_ws_reversed_pair",
-             "formula_label_other_case", "table_label_other_case"]
+             "formula_label_other_case", "table_label_other_case", "section_name_whitespace", "table_section_inner_ws"]
 REQUIRED = dict(("op:" + o, 6) for o in OPERATORS)
 REQUIRED["clashing_formula_is_not_the_first_entry"] = 2
 OTHER_VALUE = "as.constant 7.25"
@@ -207,6 +207,29 @@ def duplicate(case):
         i = secs.index(pf)
         secs.insert(i if case["before"] else i + 1, dup)
         return secs, "table form and custom formula both called %r" % name
+    if op == "section_name_whitespace":
+        # a second section whose NAME differs only in whitespace ('[Pair ]', '[ Tabulation]'): the same section again
+        cand = [s_ for s_ in secs if s_[1] and not s_[0].startswith("Table-Form")]
+        t = pick(cand)
+        if not t:
+            return None
+        k, val = t[1][case["site"] % len(t[1])]
+        nn = [t[0] + " ", " " + t[0], t[0].replace("-", " -", 1) if "-" in t[0] else t[0] + "  "][(case["site"] // 3) % 3]
+        other = OTHER_VALUE if t[0] in ("Pair", "EAM-Embed", "EAM-Density", "EAM-ADP-Dipole", "EAM-ADP-Quadrupole") else val
+        i = secs.index(t)
+        secs.insert(i if case["before"] else i + 1, [nn, [[k, other]]])
+        return secs, "section [%s] given again as [%s]" % (t[0], nn)
+    if op == "table_section_inner_ws":
+        t = pick(tabs)
+        if not t:
+            return None
+        name = t[0].split(":", 1)[1]
+        if len(name) < 2:
+            return None
+        nn = "Table-Form:%s %s" % (name[:len(name) // 2], name[len(name) // 2:])
+        i = secs.index(t)
+        secs.insert(i if case["before"] else i + 1, [nn, [["x", "0 1 2 3 4"], ["y", "7.25 1 2 3 4"]]])
+        return secs, "table form %r defined by two sections (%r)" % (name, nn)
     if op == "table_named_like_builtin":
         name = "as." + pick(sorted(gen.BUILTIN + ["buck4"]))
         if case["site"] % 3 == 0:
